@@ -87,3 +87,8 @@ Definition tts_fh_relative (n : Z) (fh : list Z) : res (list Z * list Z) :=
   if (0 <? zfirst fh) && (m <? n) then
     let cut := n - m - 1 in Ok (zrange 0 (cut + 1) 1, map (fun h => cut + h) fh)
   else Err.
+
+(* fh form, absolute horizon over a series labelled lo .. lo+n-1: train = every label before the first
+   requested time point, test = exactly the requested time points *)
+Definition tts_fh_absolute (lo n : Z) (fh : list Z) : res (list Z * list Z) :=
+  if (lo <? zfirst fh) && (zlast fh <? lo + n) then Ok (zrange lo (zfirst fh) 1, fh) else Err.
